@@ -193,9 +193,6 @@ func run(r *vt.Run, t vt.TB, s spec) {
 				if short {
 					sig += ":altered"
 				}
-				if e1.IntegerArgsPK(ts.Def) {
-					sig = e1.KnownIntegerArgs
-				}
 				if e1.RawDefault(cat, cols, got[i], want[i]) {
 					// the specific known shape: a short row completed with the
 					// DEFAULT literal as written, without the column's affinity
